@@ -15,6 +15,8 @@ pub fn entries() -> Vec<(&'static str, crate::EntryFn)> {
         ("realudp", entry_realudp),
         ("realecho", entry_realecho),
         ("realrefused", entry_realrefused),
+        ("realgs2", entry_realgs2),
+        ("realjava", entry_realjava),
         ("realtcp", entry_realtcp),
     ]
 }
@@ -175,6 +177,92 @@ fn entry_realrefused(args: &[&str]) -> String {
         Ok(_) => format!("OK ;; - ;; T{elapsed}"),
         Err(e) => format!("ERR {} ;; - ;; T{}", kind_name(&e.kind), elapsed),
     }
+}
+
+/// A loopback UDP server that answers the n-th request with the n-th scripted delivery (`~` = silent for that
+/// request, exhausted = silent for ever); runs `client` against it and returns (what `client` printed, the requests
+/// the server saw, elapsed milliseconds).
+fn with_udp_server(bind: &str, deliveries: Vec<Delivery>, client: impl FnOnce(&SocketAddr) -> String) -> (String, Vec<Vec<u8>>, u128) {
+    let server = UdpSocket::bind(bind).expect("bind loopback");
+    server.set_read_timeout(Some(Duration::from_millis(20))).unwrap();
+    let addr: SocketAddr = server.local_addr().unwrap();
+    let stop = Arc::new(AtomicBool::new(false));
+    let seen: Arc<Mutex<Vec<Vec<u8>>>> = Arc::new(Mutex::new(Vec::new()));
+    let (stop2, seen2) = (stop.clone(), seen.clone());
+    let handle = std::thread::spawn(move || {
+        let mut next = deliveries.into_iter();
+        let mut buf = vec![0u8; 65536];
+        while !stop2.load(Ordering::Relaxed) {
+            if let Ok((n, from)) = server.recv_from(&mut buf) {
+                seen2.lock().unwrap().push(buf[.. n].to_vec());
+                if let Some(Delivery::Data(d)) = next.next() {
+                    let _ = server.send_to(&d, from);
+                }
+            }
+        }
+    });
+    let t0 = Instant::now();
+    let out = client(&addr);
+    let elapsed = t0.elapsed().as_millis();
+    stop.store(true, Ordering::Relaxed);
+    let _ = handle.join();
+    let reqs = seen.lock().unwrap().clone();
+    (out, reqs, elapsed)
+}
+
+/// `realgs2 <v4|v6> <timeout_ms> <retries> <script>`: the GameSpy 2 query on real sockets
+fn entry_realgs2(args: &[&str]) -> String {
+    if args.len() < 4 {
+        return "bad-case".into();
+    }
+    let (Some(bind), Ok(ms), Ok(retries), Some(script)) = (
+        loopback(args[0]),
+        args[1].parse::<u64>(),
+        args[2].parse::<usize>(),
+        crate::net::parse_net_args(&args[3 ..]),
+    ) else {
+        return "bad-case".into();
+    };
+    let deliveries: Vec<Delivery> = match script.conns.into_iter().next() {
+        Some(ConnScript::Open(d)) => d,
+        _ => vec![],
+    };
+    let (out, reqs, elapsed) = with_udp_server(bind, deliveries, |addr| {
+        show_res(&gamedig::protocols::gamespy::two::query(addr, settings(ms, retries)), crate::gs2::show_response)
+    });
+    format!("{} ;; {} ;; T{}", out, reqs.iter().map(|d| hex(d)).collect::<Vec<_>>().join(","), elapsed)
+}
+
+/// `realjava <v4|v6> <timeout_ms> <retries>`: the Minecraft Java query against a TCP peer that accepts the
+/// connection, reads whatever is written and never answers (the connection stays open until the query is over)
+fn entry_realjava(args: &[&str]) -> String {
+    if args.len() != 3 {
+        return "bad-case".into();
+    }
+    let (Some(bind), Ok(ms), Ok(retries)) = (loopback(args[0]), args[1].parse::<u64>(), args[2].parse::<usize>()) else {
+        return "bad-case".into();
+    };
+    let listener = TcpListener::bind(bind).expect("bind loopback");
+    let addr = listener.local_addr().unwrap();
+    let stop = Arc::new(AtomicBool::new(false));
+    let stop2 = stop.clone();
+    let handle = std::thread::spawn(move || {
+        if let Ok((mut s, _)) = listener.accept() {
+            let _ = s.set_read_timeout(Some(Duration::from_millis(20)));
+            let mut buf = vec![0u8; 4096];
+            while !stop2.load(Ordering::Relaxed) {
+                let _ = s.read(&mut buf);
+            }
+        }
+    });
+    let t0 = Instant::now();
+    let r = gamedig::games::minecraft::protocol::query_java(&addr, settings(ms, retries), None);
+    let elapsed = t0.elapsed().as_millis();
+    stop.store(true, Ordering::Relaxed);
+    // unblock `accept` if the client never connected
+    let _ = std::net::TcpStream::connect_timeout(&addr, Duration::from_millis(50));
+    let _ = handle.join();
+    format!("{} ;; - ;; T{}", show_res(&r, crate::minecraft::show_java), elapsed)
 }
 
 /// `realtcp <v4|v6> <timeout_ms> <c|h> <hex|.>`: a TCP peer that reads the 4-byte request, writes the given bytes
